@@ -153,7 +153,7 @@ type S8 struct {
 	ByName   map[string]S8acc
 }
 
-var structTypes = []reflect.Type{reflect.TypeOf(S1{}), reflect.TypeOf(S2{}), reflect.TypeOf(S3{}), reflect.TypeOf(S4{}), reflect.TypeOf(S5{}), reflect.TypeOf(S6{}), reflect.TypeOf(S7{}), reflect.TypeOf(S9{})}
+var structTypes = []reflect.Type{reflect.TypeOf(S1{}), reflect.TypeOf(S2{}), reflect.TypeOf(S3{}), reflect.TypeOf(S4{}), reflect.TypeOf(S5{}), reflect.TypeOf(S6{}), reflect.TypeOf(S7{}), reflect.TypeOf(S9{}), reflect.TypeOf(S10{}), reflect.TypeOf(S11{})}
 
 var ifaceT = reflect.TypeOf((*interface{})(nil)).Elem()
 var strT = reflect.TypeOf("")
